@@ -9,13 +9,16 @@ SPEC = {
     "level": "proof",
     "level_text": (
         "Partial, with the full statement refuted by witnesses. Proved for all inputs: the transcription of "
-        "interpretOps evaluates exactly the tree aspGroup (any state, operands with side effects); that tree is the "
-        "tree of the Python grammar (precedence climbing) whenever no operator swallows - in particular for at most two "
-        "operators and for non-increasing precedences; the integer operators + - * // % give Python's value except % on "
-        "operands of different sign. The full statement (every program on which both evaluate renders the same globals) "
-        "is refuted by seven machine-checked witnesses, one per root cause, each a listed known finding. The statement "
-        "/ builtin layer of the two evaluators (Model/AspInterp.lean, Model/PyInterp.lean) is tied to the real "
-        "interpreter and to python3 only by correspondence; no whole-program agreement theorem is claimed."
+        "interpretOps evaluates exactly the tree aspGroup (any state, operands with side effects, provided truthiness is "
+        "state-independent); on every chain as written - prefix '-' and 'not' hoisted the way the parser does it, of any "
+        "length - that tree is the tree of the Python grammar (precedence climbing) whenever no operator swallows "
+        "(C16_ops_partial_with_prefix; corollaries: at most two operators, non-increasing precedences); the class "
+        "predicate 'swallows' is exact (iff the trees differ) on all chains of up to 4 binary operators and up to 3 with "
+        "prefixes; the integer operators + - * // % give Python's value except % on operands of different sign. The "
+        "full statement (every program on which both evaluate renders the same globals) is refuted by seven "
+        "machine-checked witnesses, one per root cause, each a listed known finding. The statement / builtin layer of "
+        "the two evaluators (Model/AspInterp.lean, Model/PyInterp.lean) is tied to the real interpreter and to python3 "
+        "only by correspondence; no whole-program agreement theorem is claimed."
     ),
     "technique": "Lean proofs about a transcription of interpretOps + differential three-way tie (asp, Lean asp model, Lean Python reference, python3) with repair-based classification of disagreements",
     "trusted": [
@@ -35,5 +38,18 @@ SPEC = {
 }
 
 MUTATIONS = """
-(filled in after the dry-runs)
+Dry-runs on a scratch copy (VERIF_REPO=/var/tmp/mC16, ./check C16 quick), all compile:
+ M1  grammar.go  Precedence(): Add/Subtract 2 -> 3            RED  failing input a = 1 - 2 * 3 - 4 (asp -7, python -9),
+                                                                   class asp-python-disagree-unexplained; C16_facts_ok fails (table order)
+ M2  objects.go  pyInt Multiply: i * o -> i + o                RED  same input (asp 0); facts: intOps Multiply |-> "+"
+ M3  builtins.go sorted: LessThan/GreaterThan swapped          RED  l = [3,1,2]; s = sorted(l) -> [3,2,1]; 20 model disagreements
+ M4  interpreter.go interpretOps: lazy test != -> ==           RED  r = 7 and -3 - 2 (asp 7, python -5)
+ M5  objects.go  pyIndex: i = l + i -> l + i + 1               RED  concrete program with a negative slice bound
+ M6  objects.go  list +: slices.Clip(append(..)) -> append(..) RED  (after adding the fact listAddClips and the scenario "a sum used twice"):
+                                                                   C16_facts_ok fails + 20 model disagreements; first version of the check missed it
+ M9  objects.go  pyDict.Keys(): sort dropped                   RED  rendered dict order / d.keys() differ from python
+ M10 objects.go  pyInt <=  ->  <                               RED  concrete program (g5 false vs true)
+ M7  interpreter.go rename local nobj -> rhs in interpretOps   GREEN (harmless)
+ M8  builtins.go sorted: l = l[:] -> slices.Clone(l)  (a fix)  RED  as designed: the witness theorem C16_witness_sorted_in_place no longer
+                                                                   checks and the known finding is no longer reproduced; needs the check updated with the fix
 """
